@@ -28,6 +28,8 @@ type Cfg struct {
 	// Big asks for at least 8 entities in each top-level map of the translator
 	// (types, comdats, globals, attribute groups, named metadata, metadata).
 	Big bool
+	// GEPBias makes getelementptr instructions and constant expressions much more frequent.
+	GEPBias bool
 }
 
 // DefaultCfg returns the 'full' profile.
